@@ -175,6 +175,7 @@ struct request
 {
     std::string op, type, e, hex;
     bool force;
+    bool fresh;     /* no decode: the default-constructed object is printed and encoded */
     size_t off;     /* the input of decode starts `off` bytes behind an aligned address */
     size_t eoff;    /* the destination of encode(void*) starts `eoff` bytes behind an aligned address */
     std::vector<std::pair<std::string, size_t> > grow;
@@ -249,7 +250,7 @@ static void process(const ops& o, const request& rq)
     {
         g_alloc_total = 0;
         g_alloc_max = 0;
-        bool ok = o.decode(obj, e, data, size);
+        bool ok = rq.fresh ? true : o.decode(obj, e, data, size);
         size_t total = g_alloc_total, max = g_alloc_max;
         decoded = true;
         stage_key = "post_exception";
@@ -355,6 +356,7 @@ static bool parse(const std::string& line, request& rq)
     if (tok.size() < 4) return false;
     rq.op = tok[0]; rq.type = tok[1]; rq.e = tok[2]; rq.hex = tok[3] == "-" ? std::string() : tok[3];
     rq.force = false;
+    rq.fresh = false;
     rq.off = 0;
     rq.eoff = 0;
     rq.grow.clear();
@@ -363,6 +365,7 @@ static bool parse(const std::string& line, request& rq)
     for (size_t k = 4; k < tok.size(); ++k)
     {
         if (tok[k] == "force") { rq.force = true; continue; }
+        if (tok[k] == "fresh") { rq.fresh = true; continue; }
         if (tok[k].compare(0, 4, "off=") == 0) { rq.off = size_t(atoi(tok[k].c_str() + 4)); continue; }
         if (tok[k].compare(0, 5, "eoff=") == 0) { rq.eoff = size_t(atoi(tok[k].c_str() + 5)); continue; }
         size_t eq = tok[k].find('=');
@@ -754,6 +757,8 @@ class FullBatch(object):
         toks = [op, t, e, data or '-']
         if rq.get('force_enc'):
             toks.append('force')
+        if rq.get('fresh'):
+            toks.append('fresh')
         if rq.get('off'):
             toks.append('off=%d' % int(rq['off']))
         if rq.get('eoff'):
